@@ -65,8 +65,10 @@ def random_floats(lower: float | None = None, upper: float | None = None) -> Ite
     yield lower
     yield upper
     # TODO: maybe first generate_true some smaller float
+    # sample inside the finite doubles: with an infinite end random.uniform answers nan (or the infinity itself)
+    low, high = max(lower, -sys.float_info.max), min(upper, sys.float_info.max)
     while True:
-        yield random.uniform(lower, upper) if lower < upper else lower
+        yield random.uniform(low, high) if low < high else lower
 
 
 def random_ints(lower: int | None = None, upper: int | None = None) -> Iterator[int]:
